@@ -2,8 +2,8 @@
 from .. import common as C, generic as G
 
 TRUSTED = ['Coq 8.16.1 kernel + vm_compute', 'translator/py2coq.py + translator/tables.py', 'Coq Reals: all algebraic statements are exact-real; LAPACK least-squares/QR/SVD are oracles (not modelled); rounding and conditioning are only validated', 'oracle harness harness/oracles/C05.py']
-PERRUN = ['Char_model.v', 'C16.v', 'C05.v']
-GEN = ('Gen_util', 'Gen_model', 'Gen_tables')
+PERRUN = ['Char_model.v', 'Char_controller.v', 'C16.v', 'C05.v']      # Char_controller: the small-objective exit averages the samples per residual (evaluate_objective_eq)
+GEN = ('Gen_util', 'Gen_model', 'Gen_controller', 'Gen_tables')
 LEVEL = 'other'
 EXPLANATION = 'obligations: translation of the anchored functions + theorems listed in coverage.theorems; the remaining clauses are validated by the oracle sweep only'
 
